@@ -11,7 +11,10 @@ class Frozen:
         raise ValueError('frozen message is immutable')
 
     def __hash__(self):
-        return hash(tuple(sorted(vars(self).items())))
+        # Lists (sequencer_specific data) are hashed as tuples.
+        return hash(tuple(
+            (name, tuple(value) if isinstance(value, list) else value)
+            for name, value in sorted(vars(self).items())))
 
 
 class FrozenMessage(Frozen, Message):
